@@ -12,6 +12,7 @@ using namespace xcmp;
 extern "C" {
 __attribute__((noinline)) int xf_compile(std::istream *in, std::ostream *bin, std::ostream *listing) {
   Lexer lexer; Parser parser(lexer);
+  struct Release { Lexer &l; ~Release() { (void)l.file.release(); } } guard{lexer};   // the stream belongs to the engine, also when an error unwinds
   lexer.file.reset(in); lexer.readChar();                 // what loadBuffer/openFile do after opening
   auto tree = parser.parseProgram();
   SymbolTable symbolTable;
@@ -30,7 +31,6 @@ __attribute__((noinline)) int xf_compile(std::istream *in, std::ostream *bin, st
                 d->getToken() == hexasm::Token::PADDING ? 0 : d->getValue()};
     listing->write(reinterpret_cast<const char*>(v), sizeof v); k++;
   }
-  (void)lexer.file.release();
   return k;
 }
 }
